@@ -120,6 +120,12 @@ def canon(x, sort_cmds=False):
             if name in SET_LIKE_FIELDS and isinstance(val, (list, tuple)):
                 out[name] = sorted({canon(v) for v in val})
                 continue
+            if name == 'name' and type(x).__name__.endswith('Rewrite') and isinstance(val, qlast.ObjectRef):
+                # the name of a rewrite is derived from its kinds ('Insert/Update'): same set-like treatment
+                c = canon(val)
+                c['name'] = '/'.join(sorted(c['name'].split('/')))
+                out[name] = c
+                continue
             c = canon(val, sort_cmds)
             if sort_cmds and name in ('commands', 'declarations') and isinstance(c, list):
                 c = sorted(c, key=lambda v: json.dumps(v, sort_keys=True, default=repr))
